@@ -341,6 +341,14 @@ def run(seed, scenario, trace=None, tier='quick'):
                     if ok and max(load.values()) - min(load.values()) > 1:
                         sim.violation(PROP, 'rr_unbalanced', site,
                                       {'load': load})
+            # the scheduler has no reason of its own to fail a task: "tasks
+            # wait while no eligible pilot exists"
+            for uid in sorted(st['failed']):
+                tk = st['tasks'].get(uid)
+                if tk is not None:
+                    sim.violation(PROP, 'failed_by_scheduler', site,
+                                  {'uid': uid, 'named': tk['named'],
+                                   'pstatus': dict(st['pstatus'])})
             # liveness at quiescence
             end_added = [p for p, s in st['pstatus'].items() if s == 'added']
             for uid, tk in sorted(st['tasks'].items()):
